@@ -188,7 +188,7 @@ def main():
         for fu in concurrent.futures.as_completed(futs):
             job, res = fu.result()
             results.append((job, res))
-            if FAILFAST and res.get("status") == "refuted" and job["ob"].expect == "confirm":
+            if FAILFAST and res.get("status") == "refuted" and res.get("ce_args") and job["ob"].expect == "confirm":
                 STOP.set()
             if os.environ.get("VERIF_VERBOSE"):
                 print("  . %-28s %-9s paths=%-5s cpu=%-7s %s" % (job["ob"].id, res.get("status"), res.get("paths"),
